@@ -36,3 +36,45 @@ package packet
 //@   ensures leb32_run(Sinrow(s), p0) <= 5 && !Sfail(s) ==> err == nil              [@value]
 //@   ensures Sfail(s) ==> err != nil                                                 [@errprop]
 //@   modifies *v, stream(r)                                                          [@frame]
+
+//@ func (VarLong).Len(v) (res)
+//@   ensures res == leb64_len(uint64(v))                                             [@count]
+//@   modifies nothing
+
+//@ func (VarLong).WriteToBytes(v; buf) (res)
+//@   requires len(buf) >= leb64_len(uint64(v))
+//@   loop 0: unroll 10
+//@   ensures res == leb64_len(uint64(v))                                             [@count]
+//@   ensures all(k, 0, 10, k < res ==> buf[k] == leb64_byte(uint64(v), k))          [@value]
+//@   modifies buf[0:leb64_len(uint64(v))]                                            [@frame]
+
+//@ func (VarLong).WriteTo(v; w) (n, err)
+//@   let wk = sink(w)
+//@   let l0 = old(Wlen(wk))
+//@   ensures err == nil ==> n == leb64_len(uint64(v)) && Wlen(wk) == l0 + n         [@count]
+//@   ensures err == nil ==> all(k, 0, 10, k < n ==> Wout(wk, l0+k) == leb64_byte(uint64(v), k))   [@value]
+//@   ensures Wfail(wk) ==> err != nil                                                [@errprop]
+//@   modifies sink(w)                                                                [@frame]
+
+//@ func (*VarLong).ReadFrom(v; r) (n, err)
+//@   let s = stream(r)
+//@   let p0 = old(Spos(s))
+//@   loop 0: unroll 11
+//@   ensures Spos(s) - p0 <= 10                                                      [@consume]
+//@   ensures n == Spos(s) - p0                                                       [@count]
+//@   ensures err == nil ==> leb64_run(Sinrow(s), p0) == n && uint64(*v) == leb64_val(Sinrow(s), p0, n)   [@value]
+//@   ensures leb64_run(Sinrow(s), p0) > 10 && !Sfail(s) ==> err != nil              [@value]
+//@   ensures leb64_run(Sinrow(s), p0) <= 10 && !Sfail(s) ==> err == nil             [@value]
+//@   ensures Sfail(s) ==> err != nil                                                 [@errprop]
+//@   modifies *v, stream(r)                                                          [@frame]
+
+// Lemmas over the specification functions: the encoder's output (leb_byte) is
+// decoded by the decoder's reading (leb_run / leb_val) to the same value, and
+// leb_len is the minimal length.
+
+//@ lemma leb32_roundtrip(x u32, a row, i i64): all(k, 0, 5, k < leb32_len(x) ==> at(a, i+k) == leb32_byte(x, k)) ==> leb32_run(a, i) == leb32_len(x) && leb32_val(a, i, leb32_len(x)) == x
+//@ lemma leb64_roundtrip(x u64, a row, i i64): all(k, 0, 10, k < leb64_len(x) ==> at(a, i+k) == leb64_byte(x, k)) ==> leb64_run(a, i) == leb64_len(x) && leb64_val(a, i, leb64_len(x)) == x
+//@ lemma leb32_minimal(x u32): all(n, 1, 5, (leb32_len(x) <= n) == (x < uint32(1) << (7*uint32(n)))) && 1 <= leb32_len(x) && leb32_len(x) <= 5
+//@ lemma leb64_minimal(x u64): all(n, 1, 10, (leb64_len(x) <= n) == (x < uint64(1) << (7*uint64(n)))) && 1 <= leb64_len(x) && leb64_len(x) <= 10
+//@ lemma leb32_lastbyte(x u32): all(k, 0, 5, k < leb32_len(x) ==> ((leb32_byte(x, k) >= 128) == (k < leb32_len(x) - 1))) && (leb32_len(x) > 1 ==> leb32_byte(x, leb32_len(x) - 1) != 0)
+//@ lemma leb64_lastbyte(x u64): all(k, 0, 10, k < leb64_len(x) ==> ((leb64_byte(x, k) >= 128) == (k < leb64_len(x) - 1))) && (leb64_len(x) > 1 ==> leb64_byte(x, leb64_len(x) - 1) != 0)
